@@ -22,16 +22,15 @@ def lookup (es : List Entry) (line col : Nat) : Option Pos :=
 
 def hasLine (es : List Entry) (line : Nat) : Bool := es.any (·.line == line)
 
-/-- Runes of one line with their byte widths as `for _, r := range line` + `utf8.RuneLen(r)` give them:
-    a validly encoded rune advances by its length; an invalid byte is seen as U+FFFD, whose RuneLen is 3. -/
+/-- Runes of one line with their byte widths as `utf8.DecodeRuneInString` gives them (SourceMap.Add after the
+    repair b77b1e4): a validly encoded rune advances by its length, a byte that is not valid UTF-8 by one. -/
 def runeWidthsAux : Nat → Bytes → List Nat
   | 0, _ => []
   | _, [] => []
   | fuel + 1, s@(_ :: _) =>
-    let (r, w) := Utf8.decodeRune s
+    let (_, w) := Utf8.decodeRune s
     let adv := max w 1
-    let rlen := if r == Utf8.runeError && w ≤ 1 then 3 else adv
-    rlen :: runeWidthsAux fuel (s.drop adv)
+    adv :: runeWidthsAux fuel (s.drop adv)
 
 def runeWidths (line : Bytes) : List Nat := runeWidthsAux line.length line
 
